@@ -855,5 +855,515 @@ theorem node4_deleteChild_eq (E : Env C) (h : Hdr) (len : Nat) (keys : BitVec 32
   · rw [if_neg (by rw [hbeq]; exact hc), if_neg hc, if_neg hc]
     rfl
 
+/-! ### the 256 → 48 shrink loop -/
+
+/-- occupied positions among the first `i` slots, ascending -/
+def liveUpTo (slots : List (Option C)) (i : Nat) : List (Nat × C) :=
+  (List.range i).filterMap fun j =>
+    match (slots[j]?).join with
+    | some c => some (j, c)
+    | none => none
+
+theorem liveUpTo_256 (slots : List (Option C)) : liveUpTo slots 256 = live256 slots := rfl
+
+theorem liveUpTo_succ (slots : List (Option C)) (i : Nat) :
+    liveUpTo slots (i + 1) = liveUpTo slots i ++
+      (match (slots[i]?).join with | some c => [(i, c)] | none => []) := by
+  unfold liveUpTo
+  rw [List.range_succ, List.filterMap_append]
+  congr 1
+  cases h : (slots[i]?).join <;> simp [h]
+
+theorem liveUpTo_mono (slots : List (Option C)) (j k : Nat) :
+    (liveUpTo slots j).length ≤ (liveUpTo slots (j + k)).length := by
+  induction k with
+  | zero => exact Nat.le_refl _
+  | succ k ih =>
+    rw [← Nat.add_assoc, liveUpTo_succ, List.length_append]
+    omega
+
+/-- the node48 index built from a list of (position, child) pairs: entry `j` of the list gets slot `j` (stored `j+1`) -/
+def idxOf (L : List (Nat × C)) : Bytes :=
+  (List.range L.length).foldl
+    (fun acc j => match L[j]? with | some (i, _) => acc.set i (UInt8.ofNat (j + 1)) | none => acc)
+    (List.replicate 256 0)
+
+theorem idxOf_snoc (L : List (Nat × C)) (i : Nat) (c : C) :
+    idxOf (L ++ [(i, c)]) = (idxOf L).set i (UInt8.ofNat (L.length + 1)) := by
+  unfold idxOf
+  rw [List.length_append, List.length_singleton, List.range_succ, List.foldl_append, List.foldl_cons, List.foldl_nil]
+  have e : (L ++ [(i, c)])[L.length]? = some (i, c) := by simp
+  simp only [e]
+  congr 1
+  apply foldl_congr'
+  intro acc j hj
+  have hj' : j < L.length := List.mem_range.1 hj
+  rw [List.getElem?_append_left hj']
+
+theorem idxOf_length (L : List (Nat × C)) : (idxOf L).length = 256 := by
+  unfold idxOf
+  generalize List.range L.length = R
+  have : ∀ (R : List Nat) (acc : Bytes), acc.length = 256 →
+      (R.foldl (fun acc j => match L[j]? with | some (i, _) => acc.set i (UInt8.ofNat (j + 1)) | none => acc) acc).length = 256 := by
+    intro R
+    induction R with
+    | nil => intro acc h; exact h
+    | cons x xs ih =>
+      intro acc h
+      rw [List.foldl_cons]
+      apply ih
+      cases L[x]? with
+      | none => exact h
+      | some p => obtain ⟨i, _⟩ := p; simp [h]
+  exact this R _ (by rw [List.length_replicate])
+
+theorem set_fill' {α} (A : List α) (k : Nat) (z v : α) :
+    (A ++ List.replicate (k + 1) z).set A.length v = A ++ v :: List.replicate k z := by
+  rw [List.set_append_right _ _ (Nat.le_refl _)]
+  simp [List.replicate_succ]
+
+theorem u8_ofInt_succ (n : Nat) : UInt8.ofInt ((n : Int) + 1) = UInt8.ofNat (n + 1) := by
+  apply UInt8.toNat_inj.1
+  simp [UInt8.ofInt, UInt8.toNat_ofNat']
+  omega
+
+theorem loop_shrink256 (E : Env C) (n256 m : Img C) (b : UInt8)
+    (hs : n256.children.length = 256) (hlive : (live256 n256.children).length ≤ 48) :
+    ∀ (d i fuel : Nat), i + d = 256 → d < fuel →
+      node256_deleteChild.loop0 E n256 b fuel
+        ({ m with children := (liveUpTo n256.children i).map (fun ic => some ic.2) ++ List.replicate (48 - (liveUpTo n256.children i).length) none, keysA := idxOf (liveUpTo n256.children i) },
+         ((liveUpTo n256.children i).length : Int), (i : Int)) =
+      some ({ m with children := (live256 n256.children).map (fun ic => some ic.2) ++ List.replicate (48 - (live256 n256.children).length) none, keysA := idxOf (live256 n256.children) },
+            ((live256 n256.children).length : Int), (256 : Int)) := by
+  intro d
+  induction d with
+  | zero =>
+    intro i fuel hi hf
+    obtain ⟨fuel, rfl⟩ : ∃ k, fuel = k + 1 := ⟨fuel - 1, by omega⟩
+    have : i = 256 := by omega
+    subst this
+    have hc : (decide (((256 : Nat) : Int) < 256)) = false := by decide
+    simp only [node256_deleteChild.loop0, hc, liveUpTo_256]
+    rfl
+  | succ d ih =>
+    intro i fuel hi hf
+    obtain ⟨fuel, rfl⟩ : ∃ k, fuel = k + 1 := ⟨fuel - 1, by omega⟩
+    have hi' : i < 256 := by omega
+    have hc : (decide ((i : Int) < 256)) = true := by simp; omega
+    have hcast : ((i : Int) + 1) = ((i + 1 : Nat) : Int) := by omega
+    have hget : n256.children[i]? = some ((n256.children[i]?).join) := by
+      rw [List.getElem?_eq_getElem (by omega)]; rfl
+    have hsub : (liveUpTo n256.children (i + 1)).length ≤ 48 := by
+      have : (liveUpTo n256.children (i + 1)).length ≤ (live256 n256.children).length := by
+        have h := liveUpTo_mono n256.children (i + 1) (256 - (i + 1))
+        have e : i + 1 + (256 - (i + 1)) = 256 := by omega
+        rw [e, liveUpTo_256] at h
+        exact h
+      omega
+    simp only [node256_deleteChild.loop0, hc, if_true, idx?_nat, Option.bind_eq_bind]
+    rw [hget]
+    simp only [Option.bind_some]
+    rw [liveUpTo_succ] at hsub
+    have := ih (i + 1) fuel (by omega) (by omega)
+    rw [liveUpTo_succ] at this
+    rcases hx : (n256.children[i]?).join with _ | c
+    · rw [hx] at this hsub
+      simp only [List.append_nil] at this
+      simp only [Option.isSome_none, Bool.false_eq_true, if_false, ↓reduceIte, hcast]
+      exact this
+    · rw [hx] at this hsub
+      simp only [Option.isSome_some, if_true, ↓reduceIte, hget, hx, Option.bind_some]
+      simp only [List.length_append, List.length_singleton] at hsub
+      have hrep : List.replicate (48 - (liveUpTo n256.children i).length) (none : Option C) =
+          List.replicate (48 - ((liveUpTo n256.children i).length + 1) + 1) none := by
+        have : 48 - (liveUpTo n256.children i).length = 48 - ((liveUpTo n256.children i).length + 1) + 1 := by omega
+        rw [this]
+      have hlen : ((liveUpTo n256.children i).map (fun ic => some ic.2)).length = (liveUpTo n256.children i).length := by
+        rw [List.length_map]
+      rw [hrep, setIdx_nat _ _ _ (by rw [List.length_append, List.length_map, List.length_replicate]; omega)]
+      simp only [Option.bind_some]
+      rw [← hlen, set_fill', hlen]
+      rw [setIdx_nat _ _ _ (by rw [idxOf_length]; exact hi')]
+      simp only [Option.bind_some, u8_ofInt_succ, hcast]
+      rw [List.length_append, List.length_singleton, List.map_append, List.map_singleton, idxOf_snoc,
+        List.append_assoc, List.singleton_append] at this
+      rw [show (((liveUpTo n256.children i).length : Int) + 1) = (((liveUpTo n256.children i).length + 1 : Nat) : Int) by omega]
+      exact this
+
+theorem node256_deleteChild_shrink (E : Env C) (hpz : PoolsZero E) (h : Hdr) (len : Nat) (slots : List (Option C))
+    (b : UInt8) (hs : slots.length = 256) (hlen : len < 256)
+    (hsh : ((len + 255) % 256 == shrink256) = true)
+    (hlive : (live256 (slots.set b.toNat none)).length ≤ 48) :
+    node256_deleteChild E (img256 h len slots) b =
+      some { out := match remove256 h len slots b with | .node r => outOf r | .collapse _ _ c => .child c,
+             released := [(3, zeroImg 3)] } := by
+  have hb : b.toNat < slots.length := by rw [hs]; exact UInt8.toNat_lt b
+  have hbeq : (hl ((len + 255) % 256) == (37 : UInt8)) = ((len + 255) % 256 == shrink256) := by
+    have := hl_beq ((len + 255) % 256) 37 (by omega) (by omega)
+    rw [show UInt8.ofNat 37 = (37 : UInt8) from rfl] at this
+    rw [this]; rfl
+  have hs' : (slots.set b.toNat none).length = 256 := by rw [List.length_set, hs]
+  have hloop := loop_shrink256 E (img256 h ((len + 255) % 256) (slots.set b.toNat none))
+    ({ (zeroImg 2 : Img C) with childrenLen := hl ((len + 255) % 256), prefixLen := hp h, «prefix» := h.pfx }) b hs' hlive
+    256 0 loopFuel (by omega) (by simp only [loopFuel]; omega)
+  have hclear := node256_clear_eq E h ((len + 255) % 256) (slots.set b.toNat none) hs'
+  simp only [node256_deleteChild, img256, Option.bind_eq_bind, Option.bind_some, setIdx_nat _ _ _ hb, hl_pred]
+  rw [if_pos (by rw [hbeq]; exact hsh)]
+  simp only [img256] at hloop hclear
+  simp only [hpz 2, Option.bind_eq_bind]
+  change (node256_deleteChild.loop0 E _ b loopFuel (_, ((0 : Nat) : Int), ((0 : Nat) : Int))).bind _ = _
+  have key : node256_deleteChild.loop0 E { prefixLen := hp h, childrenLen := hl ((len + 255) % 256), «prefix» := h.pfx, children := slots.set b.toNat none, keysW := 0#32, keysA := [] } b loopFuel ({ prefixLen := hp h, childrenLen := hl ((len + 255) % 256), «prefix» := h.pfx, children := (zeroImg 2 : Img C).children, keysW := (zeroImg 2 : Img C).keysW, keysA := (zeroImg 2 : Img C).keysA }, ((0 : Nat) : Int), ((0 : Nat) : Int)) = _ := hloop
+  rw [key, Option.bind_some, hclear, Option.bind_some]
+  simp only [remove256, hsh, ↓reduceIte, pure, List.nil_append]
+  rfl
+
+/-! ### the 48 → 16 shrink loop -/
+
+/-- (byte, slot content) of the non-zero index bytes among the first `i`, ascending -/
+def live48 (idx : Bytes) (slots : List (Option C)) (i : Nat) : List (UInt8 × Option C) :=
+  (List.range i).filterMap fun j =>
+    let p : UInt8 := idx.getD j 0
+    if p != 0 then some (UInt8.ofNat j, (slots[p.toNat - 1]?).join) else none
+
+theorem live48_succ (idx : Bytes) (slots : List (Option C)) (i : Nat) :
+    live48 idx slots (i + 1) = live48 idx slots i ++
+      (if (idx.getD i 0 != 0) = true then [(UInt8.ofNat i, (slots[(idx.getD i 0).toNat - 1]?).join)] else []) := by
+  unfold live48
+  rw [List.range_succ, List.filterMap_append]
+  congr 1
+  by_cases h : (idx.getD i 0 != 0) = true <;> simp only [List.filterMap_cons, List.filterMap_nil, h, ↓reduceIte, Bool.false_eq_true]
+
+theorem live48_mono (idx : Bytes) (slots : List (Option C)) (j k : Nat) :
+    (live48 idx slots j).length ≤ (live48 idx slots (j + k)).length := by
+  induction k with
+  | zero => exact Nat.le_refl _
+  | succ k ih =>
+    rw [← Nat.add_assoc, live48_succ, List.length_append]
+    omega
+
+theorem u8_ofInt_nat (n : Nat) : UInt8.ofInt (n : Int) = UInt8.ofNat n := by
+  apply UInt8.toNat_inj.1
+  simp [UInt8.ofInt, UInt8.toNat_ofNat']
+  omega
+
+theorem loop_shrink48 (E : Env C) (n48 m : Img C) (b : UInt8)
+    (hk : n48.keysA.length = 256) (hs : n48.children.length = 48)
+    (hv : ∀ i, i < 256 → n48.keysA.getD i 0 ≠ 0 → (n48.keysA.getD i 0).toNat ≤ 48)
+    (hlive : (live48 n48.keysA n48.children 256).length ≤ 16) :
+    ∀ (d i fuel : Nat) (p0 : UInt8), i + d = 256 → d < fuel →
+      (node48_deleteChild.loop0 E n48 b fuel
+        (p0, { m with keysA := (live48 n48.keysA n48.children i).map (·.1) ++ List.replicate (16 - (live48 n48.keysA n48.children i).length) 0, children := (live48 n48.keysA n48.children i).map (·.2) ++ List.replicate (16 - (live48 n48.keysA n48.children i).length) none },
+         ((live48 n48.keysA n48.children i).length : Int), (i : Int))).map (fun st => st.2.1) =
+      some { m with keysA := (live48 n48.keysA n48.children 256).map (·.1) ++ List.replicate (16 - (live48 n48.keysA n48.children 256).length) 0, children := (live48 n48.keysA n48.children 256).map (·.2) ++ List.replicate (16 - (live48 n48.keysA n48.children 256).length) none } := by
+  intro d
+  induction d with
+  | zero =>
+    intro i fuel p0 hi hf
+    obtain ⟨fuel, rfl⟩ : ∃ k, fuel = k + 1 := ⟨fuel - 1, by omega⟩
+    have : i = 256 := by omega
+    subst this
+    have hc : (decide (((256 : Nat) : Int) < 256)) = false := by decide
+    simp only [node48_deleteChild.loop0, hc]
+    rfl
+  | succ d ih =>
+    intro i fuel p0 hi hf
+    obtain ⟨fuel, rfl⟩ : ∃ k, fuel = k + 1 := ⟨fuel - 1, by omega⟩
+    have hi' : i < 256 := by omega
+    have hc : (decide ((i : Int) < 256)) = true := by simp; omega
+    have hcast : ((i : Int) + 1) = ((i + 1 : Nat) : Int) := by omega
+    have hget : n48.keysA[i]? = some (n48.keysA.getD i 0) := getD_eq_some _ _ (by omega)
+    have hsub : (live48 n48.keysA n48.children (i + 1)).length ≤ 16 := by
+      have h := live48_mono n48.keysA n48.children (i + 1) (256 - (i + 1))
+      have e : i + 1 + (256 - (i + 1)) = 256 := by omega
+      rw [e] at h
+      omega
+    simp only [node48_deleteChild.loop0, hc, if_true, idx?_nat, hget, Option.bind_eq_bind, Option.bind_some]
+    have := ih (i + 1) fuel (n48.keysA.getD i 0) (by omega) (by omega)
+    rw [live48_succ] at this hsub
+    by_cases hz : n48.keysA.getD i 0 = 0
+    · have hnz : ¬ (n48.keysA.getD i 0 != 0) = true := by rw [hz]; decide
+      rw [if_neg hnz] at this hsub
+      simp only [List.append_nil] at this
+      rw [if_neg hnz, hcast]
+      exact this
+    · have hnz : (n48.keysA.getD i 0 != 0) = true := by simpa using hz
+      rw [if_pos hnz] at this hsub
+      rw [if_pos hnz]
+      have hle := hv i hi' hz
+      have hpos := u8_pos _ hz
+      have hsl : n48.children[(n48.keysA.getD i 0).toNat - 1]? =
+          some ((n48.children[(n48.keysA.getD i 0).toNat - 1]?).join) := by
+        rw [List.getElem?_eq_getElem (by omega)]; rfl
+      simp only [List.length_append, List.length_singleton] at hsub
+      generalize hL : live48 n48.keysA n48.children i = L at *
+      have hrepk : List.replicate (16 - L.length) (0 : UInt8) = List.replicate (16 - (L.length + 1) + 1) 0 := by
+        have : 16 - L.length = 16 - (L.length + 1) + 1 := by omega
+        rw [this]
+      have hreps : List.replicate (16 - L.length) (none : Option C) = List.replicate (16 - (L.length + 1) + 1) none := by
+        have : 16 - L.length = 16 - (L.length + 1) + 1 := by omega
+        rw [this]
+      have hlk : (L.map (·.1)).length = L.length := by rw [List.length_map]
+      have hls : (L.map (·.2)).length = L.length := by rw [List.length_map]
+      rw [hrepk, hreps, setIdx_nat _ _ _ (by rw [List.length_append, List.length_map, List.length_replicate]; omega)]
+      simp only [Option.bind_some, u8_pred_toNat _ hz, idx?_nat]
+      rw [hsl]
+      simp only [Option.bind_some]
+      rw [setIdx_nat _ _ _ (by rw [List.length_append, List.length_map, List.length_replicate]; omega)]
+      simp only [Option.bind_some]
+      rw [← hlk, set_fill', hlk, ← hls, set_fill', hls, u8_ofInt_nat, hcast]
+      rw [List.length_append, List.length_singleton, List.map_append, List.map_append, List.map_singleton,
+        List.map_singleton, List.append_assoc, List.append_assoc, List.singleton_append, List.singleton_append] at this
+      rw [show ((L.length : Int) + 1) = ((L.length + 1 : Nat) : Int) by omega]
+      exact this
+
+theorem node48_deleteChild_shrink (E : Env C) (hpz : PoolsZero E) (h : Hdr) (len : Nat) (idx : Bytes)
+    (slots : List (Option C)) (b : UInt8) (hs : slots.length = 48) (hi : idx.length = 256) (hlen : len < 256)
+    (hnz : idx.getD b.toNat 0 ≠ 0) (hle : (idx.getD b.toNat 0).toNat ≤ 48)
+    (hsh : ((len + 255) % 256 == shrink48) = true)
+    (hv : ∀ i, i < 256 → (idx.set b.toNat 0).getD i 0 ≠ 0 → ((idx.set b.toNat 0).getD i 0).toNat ≤ 48)
+    (hlive : (live48 (idx.set b.toNat 0) (slots.set ((idx.getD b.toNat 0).toNat - 1) none) 256).length ≤ 16) :
+    node48_deleteChild E (img16 h len idx slots) b =
+      some { out := match remove48 h len idx slots b with | .node r => outOf r | .collapse _ _ c => .child c,
+             released := [(2, zeroImg 2)] } := by
+  have hb : b.toNat < idx.length := by rw [hi]; exact UInt8.toNat_lt b
+  have hpos := u8_pos _ hnz
+  have hbeq : (hl ((len + 255) % 256) == (12 : UInt8)) = ((len + 255) % 256 == shrink48) := by
+    have := hl_beq ((len + 255) % 256) 12 (by omega) (by omega)
+    rw [show UInt8.ofNat 12 = (12 : UInt8) from rfl] at this
+    rw [this]; rfl
+  have hi' : (idx.set b.toNat 0).length = 256 := by rw [List.length_set, hi]
+  have hs' : (slots.set ((idx.getD b.toNat 0).toNat - 1) none).length = 48 := by rw [List.length_set, hs]
+  have hloop := loop_shrink48 E (img16 h ((len + 255) % 256) (idx.set b.toNat 0) (slots.set ((idx.getD b.toNat 0).toNat - 1) none))
+    ({ (zeroImg 1 : Img C) with childrenLen := hl ((len + 255) % 256), prefixLen := hp h, «prefix» := h.pfx }) b hi' hs' hv hlive
+    256 0 loopFuel (idx.getD b.toNat 0) (by omega) (by simp only [loopFuel]; omega)
+  have hclear := node48_clear_eq E h ((len + 255) % 256) (idx.set b.toNat 0) (slots.set ((idx.getD b.toNat 0).toNat - 1) none) hs' hi'
+  simp only [node48_deleteChild, img16, idx?_nat, getD_eq_some idx _ hb, Option.bind_eq_bind, Option.bind_some,
+    setIdx_nat _ _ _ hb, u8_pred_toNat _ hnz, setIdx_nat _ _ _ (show (idx.getD b.toNat 0).toNat - 1 < slots.length by omega),
+    hl_pred]
+  rw [if_pos (by rw [hbeq]; exact hsh)]
+  simp only [img16] at hloop hclear
+  simp only [hpz 1, Option.bind_eq_bind]
+  have key : (node48_deleteChild.loop0 E { prefixLen := hp h, childrenLen := hl ((len + 255) % 256), «prefix» := h.pfx, children := slots.set ((idx.getD b.toNat 0).toNat - 1) none, keysW := 0#32, keysA := idx.set b.toNat 0 } b loopFuel (idx.getD b.toNat 0, { prefixLen := hp h, childrenLen := hl ((len + 255) % 256), «prefix» := h.pfx, children := (zeroImg 1 : Img C).children, keysW := (zeroImg 1 : Img C).keysW, keysA := (zeroImg 1 : Img C).keysA }, ((0 : Nat) : Int), ((0 : Nat) : Int))).map (fun st => st.2.1) = _ := hloop
+  change (node48_deleteChild.loop0 E _ b loopFuel (_, _, ((0 : Nat) : Int), ((0 : Nat) : Int))).bind _ = _
+  rcases hx : node48_deleteChild.loop0 E { prefixLen := hp h, childrenLen := hl ((len + 255) % 256), «prefix» := h.pfx, children := slots.set ((idx.getD b.toNat 0).toNat - 1) none, keysW := 0#32, keysA := idx.set b.toNat 0 } b loopFuel (idx.getD b.toNat 0, { prefixLen := hp h, childrenLen := hl ((len + 255) % 256), «prefix» := h.pfx, children := (zeroImg 1 : Img C).children, keysW := (zeroImg 1 : Img C).keysW, keysA := (zeroImg 1 : Img C).keysA }, ((0 : Nat) : Int), ((0 : Nat) : Int)) with _ | st
+  · rw [hx] at key; simp at key
+  · rw [hx] at key
+    simp only [Option.map_some, Option.some.injEq] at key
+    simp only [Option.bind_some, hclear, key, pure, List.nil_append]
+    simp only [remove48, hsh, ↓reduceIte]
+    rfl
+
+/-! ### the dispatchers: `(*nodeRef).addChild` / `deleteChild` on any raw record satisfying the invariant -/
+
+theorem addChild_eq (E : Env C) (hpz : PoolsZero E) (r : Raw C) (b : UInt8) (c : C) (hinv : r.inv = true) :
+    ∃ rel, nodeRef_addChild E (imgOf r).1 (imgOf r).2 b (some c) = some { out := outOf (r.add b c), released := rel } ∧
+      ∀ x ∈ rel, x.2 = zeroImg x.1 := by
+  cases r with
+  | n4 h len keys slots =>
+    obtain ⟨_, hs, hl4, _⟩ := (inv4_iff h len keys slots).1 hinv
+    by_cases hlt : len < 4
+    · refine ⟨[], ?_, by simp⟩
+      simp only [imgOf, nodeRef_addChild, node4_addChild_small E h len keys slots b c hs hlt, Option.bind_eq_bind,
+        Option.bind_some, pure, List.nil_append, Raw.add]
+    · have : len = 4 := by omega
+      subst this
+      refine ⟨[(0, zeroImg 0)], ?_, by simp⟩
+      simp only [imgOf, nodeRef_addChild, node4_addChild_grow E hpz h keys slots b c hs, Option.bind_eq_bind,
+        Option.bind_some, pure, List.nil_append, Raw.add]
+  | n16 h len keys slots =>
+    obtain ⟨_, hs, hk, hl16, _⟩ := (inv16_iff h len keys slots).1 hinv
+    by_cases hlt : len < 16
+    · refine ⟨[], ?_, by simp⟩
+      simp only [imgOf, nodeRef_addChild, node16_addChild_small E h len keys slots b c hs hk hlt, Option.bind_eq_bind,
+        Option.bind_some, pure, List.nil_append, Raw.add]
+    · have : len = 16 := by omega
+      subst this
+      refine ⟨[(1, zeroImg 1)], ?_, by simp⟩
+      simp only [imgOf, nodeRef_addChild, node16_addChild_grow E hpz h keys slots b c hs hk, Option.bind_eq_bind,
+        Option.bind_some, pure, List.nil_append, Raw.add]
+  | n48 h len idx slots =>
+    obtain ⟨_, hl48, _, hI⟩ := (inv48_iff h len idx slots).1 hinv
+    by_cases hlt : len < 48
+    · have hff : firstFree slots < 48 := by
+        have := (exists_none slots (by rw [hI.hcount, hI.hs]; exact hlt)).1
+        rw [hI.hs] at this; exact this
+      refine ⟨[], ?_, by simp⟩
+      simp only [imgOf, nodeRef_addChild, node48_addChild_small E h len idx slots b c hI.hs hI.hi hlt hff,
+        Option.bind_eq_bind, Option.bind_some, pure, List.nil_append, Raw.add]
+    · refine ⟨[(2, zeroImg 2)], ?_, by simp⟩
+      have hv : ∀ i, i < 256 → idx.getD i 0 ≠ 0 → (idx.getD i 0).toNat ≤ 48 := by
+        intro i hi hz
+        exact (hI.hvalid _ (getD_mem idx i (by rw [hI.hi]; exact hi)) hz).1
+      simp only [imgOf, nodeRef_addChild, node48_addChild_grow E hpz h len idx slots b c hI.hs hI.hi hlt (by omega) hv,
+        Option.bind_eq_bind, Option.bind_some, pure, List.nil_append, Raw.add]
+  | n256 h len slots =>
+    obtain ⟨_, hs, _⟩ := (inv256_iff h len slots).1 hinv
+    refine ⟨[], ?_, by simp⟩
+    simp only [imgOf, nodeRef_addChild, node256_addChild_eq E h len slots b c hs, Option.bind_eq_bind,
+      Option.bind_some, pure, Raw.add, outOf, add256]
+
+/-- what the tree above guarantees about the children of a node4 (their `*node` headers are ten-byte arrays, path
+    lengths far below 2^31) – needed only by the path merge -/
+def ChildHdrsOK (E : Env C) (slots : List (Option C)) : Prop :=
+  ∀ cc, some cc ∈ slots → E.isLeaf cc = false → (E.hdr cc).«prefix».length = 10 ∧ (E.hdr cc).prefixLen.toNat < 2 ^ 31
+
+theorem mem_shiftDown {α} (l : List α) (i : Nat) (x : α) (hi : i < l.length) (h : x ∈ shiftDown l i) : x ∈ l := by
+  obtain ⟨y, hy, he⟩ := shiftDown_eq l i hi
+  rw [he] at h
+  rcases List.mem_append.1 h with h | h
+  · rcases List.mem_append.1 h with h | h
+    · exact List.mem_of_mem_take h
+    · exact List.mem_of_mem_drop h
+  · rw [List.mem_singleton] at h; rw [h]; exact List.mem_of_getLast? hy
+
+theorem remove16_isNode (h : Hdr) (len : Nat) (keys : Bytes) (slots : List (Option C)) (b : UInt8) :
+    ∃ r', remove16 h len keys slots b = .node r' := by
+  simp only [remove16]; split <;> exact ⟨_, rfl⟩
+theorem remove48_isNode (h : Hdr) (len : Nat) (idx : Bytes) (slots : List (Option C)) (b : UInt8) :
+    ∃ r', remove48 h len idx slots b = .node r' := by
+  simp only [remove48]; split <;> exact ⟨_, rfl⟩
+theorem remove256_isNode (h : Hdr) (len : Nat) (slots : List (Option C)) (b : UInt8) :
+    ∃ r', remove256 h len slots b = .node r' := by
+  simp only [remove256]; split <;> exact ⟨_, rfl⟩
+
+theorem deleteChild_eq (E : Env C) (hpz : PoolsZero E) (r : Raw C) (b : UInt8) (hinv : r.inv = true)
+    (hk : ∃ p ∈ r.abs, p.1 = b) (hplen : r.hdr.plen < 2 ^ 31)
+    (hE : ∀ h len keys slots, r = .n4 h len keys slots → ChildHdrsOK E slots) :
+    ∃ rel, nodeRef_deleteChild E (imgOf r).1 (imgOf r).2 b = some { out := collapseOut E (r.remove b), released := rel } ∧
+      ∀ x ∈ rel, x.2 = zeroImg x.1 := by
+  cases r with
+  | n4 h len keys slots =>
+    obtain ⟨L, hrep, habs, hsorted⟩ := inv4_rep hinv
+    obtain ⟨hp, hs, hl, _, hst, hall⟩ := (inv4_iff h len keys slots).1 hinv
+    rw [habs] at hk
+    have hposL : L.findIdx (fun p => p.1 == b) < L.length := by
+      apply List.findIdx_lt_length.2
+      obtain ⟨p, hp, hpb⟩ := hk
+      exact ⟨p, hp, by simp [hpb]⟩
+    have hposA : ((lanes keys).take len).findIdx (fun k => k == b) = L.findIdx (fun p => p.1 == b) := by
+      rw [hrep.1, List.findIdx_map]; rfl
+    have hA : ((lanes keys).take len).length = len := by simp [lanes_length, hl]
+    have hpos4 : (lanes keys).findIdx (fun k => k == b) = L.findIdx (fun p => p.1 == b) := by
+      conv => lhs; rw [← List.take_append_drop len (lanes keys)]
+      rw [List.findIdx_append, hA, hposA, if_pos (by rw [← hrep.2.2]; exact hposL)]
+    generalize hP : L.findIdx (fun p => p.1 == b) = pos at *
+    have hpl : pos < len := by rw [← hrep.2.2]; exact hposL
+    have hp4 : pos < 4 := by omega
+    have hi : searchNode4 keys b.toBitVec = (pos : Int) := by
+      rw [searchNode4_spec, firstIdx_eq, lanes_length, hpos4, if_pos hp4]
+    have hOK := hE h len keys slots rfl
+    have hch : ∀ cc, (shiftDown slots pos)[0]? = some (some cc) → E.isLeaf cc = false →
+        (E.hdr cc).«prefix».length = 10 ∧ (E.hdr cc).prefixLen.toNat < 2 ^ 31 := by
+      intro cc hcc hleaf
+      exact hOK cc (mem_shiftDown _ _ _ (by omega) (List.mem_of_getElem? hcc)) hleaf
+    have hnn : (len + 255) % 256 = collapse4 → ∃ cc, (shiftDown slots pos)[0]? = some (some cc) := by
+      intro hc
+      have hlen2 : len = 2 := by have : collapse4 = 1 := rfl; omega
+      subst hlen2
+      have h0 : ∀ j, j < 2 → ∃ c', slots[j]? = some (some c') := by
+        intro j hj
+        have hj4 : j < slots.length := by omega
+        have hm : slots[j] ∈ slots.take 2 := by
+          rw [List.mem_take_iff_getElem]; exact ⟨j, by omega, rfl⟩
+        have := List.all_eq_true.1 hall _ hm
+        obtain ⟨c', hc'⟩ := Option.isSome_iff_exists.1 this
+        exact ⟨c', by rw [List.getElem?_eq_getElem hj4, hc']⟩
+      obtain ⟨y, _, he⟩ := shiftDown_eq slots pos (by omega)
+      rw [he]
+      have hp2 : pos = 0 ∨ pos = 1 := by omega
+      rcases hp2 with rfl | rfl
+      · obtain ⟨c', hc'⟩ := h0 1 (by omega)
+        refine ⟨c', ?_⟩
+        simp only [List.take_zero, List.nil_append]
+        rw [List.getElem?_append_left (by simp; omega), List.getElem?_drop]; exact hc'
+      · obtain ⟨c', hc'⟩ := h0 0 (by omega)
+        refine ⟨c', ?_⟩
+        rw [List.append_assoc, List.getElem?_append_left (by simp; omega), List.getElem?_take_of_lt (by omega)]; exact hc'
+    have key := node4_deleteChild_eq E h len keys slots b pos hs hp hl (by omega) hplen hi hp4 hch hnn
+    refine ⟨(if (len + 255) % 256 == collapse4 then [(0, zeroImg 0)] else []), ?_, ?_⟩
+    · simp only [imgOf, nodeRef_deleteChild, key, Option.bind_eq_bind, Option.bind_some, pure, List.nil_append, Raw.remove]
+    · intro x hx
+      by_cases hc : ((len + 255) % 256 == collapse4) = true
+      · rw [if_pos hc] at hx; simp at hx; rw [hx]
+      · rw [if_neg hc] at hx; simp at hx
+  | n16 h len keys slots =>
+    obtain ⟨L, hrep, habs, hsorted⟩ := inv16_rep hinv
+    obtain ⟨hp, hs, hkl, hl, hsh, _, _⟩ := (inv16_iff h len keys slots).1 hinv
+    rw [habs] at hk
+    have hposL : L.findIdx (fun p => p.1 == b) < L.length := by
+      apply List.findIdx_lt_length.2
+      obtain ⟨p, hp, hpb⟩ := hk
+      exact ⟨p, hp, by simp [hpb]⟩
+    have hposA : (keys.take len).findIdx (fun k => k == b) = L.findIdx (fun p => p.1 == b) := by
+      rw [hrep.1, List.findIdx_map]; rfl
+    have hA : (keys.take len).length = len := by simp; omega
+    generalize hP : L.findIdx (fun p => p.1 == b) = pos at *
+    have hpl : pos < len := by rw [← hrep.2.2]; exact hposL
+    have hi : searchNode16 keys len b = (pos : Int) := by
+      rw [searchNode16_eq keys len b (by omega) hl, firstIdx_eq, hA, hposA, if_pos hpl]
+    have key := node16_deleteChild_eq E hpz h len keys slots b pos hs hkl hl (by omega) hi (by omega)
+    refine ⟨(if (len + 255) % 256 == shrink16 then [(1, zeroImg 1)] else []), ?_, ?_⟩
+    · simp only [imgOf, nodeRef_deleteChild, key, Option.bind_eq_bind, Option.bind_some, pure, List.nil_append, Raw.remove]
+      obtain ⟨r', hr'⟩ := remove16_isNode h len keys slots b
+      rw [hr']; rfl
+    · intro x hx
+      by_cases hc : ((len + 255) % 256 == shrink16) = true
+      · rw [if_pos hc] at hx; simp at hx; rw [hx]
+      · rw [if_neg hc] at hx; simp at hx
+  | n48 h len idx slots =>
+    obtain ⟨hp, hl, hsh, hI⟩ := (inv48_iff h len idx slots).1 hinv
+    rw [abs48_eq] at hk
+    obtain ⟨c0, hc0⟩ := (is_key_iff _ b).1 hk
+    obtain ⟨hI', hl1, hlook⟩ := remove48_core len idx slots b c0 hI hc0
+    obtain ⟨hv0, hsv⟩ := look48_some hc0
+    have hbmem : idx.getD b.toNat 0 ∈ idx := getD_mem idx _ (by rw [hI.hi]; exact u8_toNat_lt b)
+    have hle := (hI.hvalid _ hbmem hv0).1
+    have hlen' : (len + 255) % 256 = len - 1 := by omega
+    by_cases hc : ((len + 255) % 256 == shrink48) = true
+    · have hv : ∀ i, i < 256 → (idx.set b.toNat 0).getD i 0 ≠ 0 → ((idx.set b.toNat 0).getD i 0).toNat ≤ 48 := by
+        intro i hi hz
+        exact (hI'.hvalid _ (getD_mem _ i (by rw [hI'.hi]; exact hi)) hz).1
+      have hlive : (live48 (idx.set b.toNat 0) (slots.set ((idx.getD b.toNat 0).toNat - 1) none) 256).length ≤ 16 := by
+        have e : live48 (idx.set b.toNat 0) (slots.set ((idx.getD b.toNat 0).toNat - 1) none) 256 = _ := live48_eq hI'
+        rw [e, List.length_map, abs48_length hI']
+        have : len - 1 = shrink48 := by rw [← hlen']; simpa using hc
+        have c := shrink48_consts.1
+        omega
+      have key := node48_deleteChild_shrink E hpz h len idx slots b hI.hs hI.hi (by omega) hv0 hle hc hv hlive
+      refine ⟨[(2, zeroImg 2)], ?_, by simp⟩
+      simp only [imgOf, nodeRef_deleteChild, key, Option.bind_eq_bind, Option.bind_some, pure, List.nil_append, Raw.remove]
+      obtain ⟨r', hr'⟩ := remove48_isNode h len idx slots b
+      rw [hr']; rfl
+    · have key := node48_deleteChild_noshrink E h len idx slots b hI.hs hI.hi (by omega) hv0 hle hc
+      refine ⟨[], ?_, by simp⟩
+      simp only [imgOf, nodeRef_deleteChild, key, Option.bind_eq_bind, Option.bind_some, pure, List.nil_append, Raw.remove]
+      obtain ⟨r', hr'⟩ := remove48_isNode h len idx slots b
+      rw [hr']; rfl
+  | n256 h len slots =>
+    obtain ⟨hp, hs, hsh, hlen⟩ := (inv256_iff h len slots).1 hinv
+    rw [abs256_eq] at hk
+    obtain ⟨c0, hc0⟩ := (is_key_iff _ b).1 hk
+    have hb' := look256_some slots b c0 hc0
+    have hcnt := countSome_set_none slots b.toNat c0 hb'
+    have hle := countSome_le slots
+    have hs' : (slots.set b.toNat none).length = 256 := by rw [List.length_set]; exact hs
+    have hl256 : len < 256 := by omega
+    by_cases hc : ((len + 255) % 256 == shrink256) = true
+    · have hlive : (live256 (slots.set b.toNat none)).length ≤ 48 := by
+        rw [live256_length _ hs']
+        have : (len + 255) % 256 = shrink256 := by simpa using hc
+        have c : shrink256 = 37 := rfl
+        omega
+      have key := node256_deleteChild_shrink E hpz h len slots b hs hl256 hc hlive
+      refine ⟨[(3, zeroImg 3)], ?_, by simp⟩
+      simp only [imgOf, nodeRef_deleteChild, key, Option.bind_eq_bind, Option.bind_some, pure, List.nil_append, Raw.remove]
+      obtain ⟨r', hr'⟩ := remove256_isNode h len slots b
+      rw [hr']; rfl
+    · have key := node256_deleteChild_noshrink E h len slots b hs hl256 hc
+      refine ⟨[], ?_, by simp⟩
+      simp only [imgOf, nodeRef_deleteChild, key, Option.bind_eq_bind, Option.bind_some, pure, List.nil_append, Raw.remove]
+      obtain ⟨r', hr'⟩ := remove256_isNode h len slots b
+      rw [hr']; rfl
+
 end GenNodeOps
 end ArtVerif
